@@ -49,7 +49,7 @@ claimed = {
  "C13": ("E2", "§5.13", "sequences of 1-2 (quick) / 1-3 (thorough) Set* calls with symbolic arguments on any value position of every well-formed tape within the bound: type gating, frame condition, refWF and all traversal APIs against the updated abstract document",
           "tapes <= 7/8 words for one call, <= 5/6 for two, <= 5 for three; marshal/serialize after edits by composition with T6/Z1; " + TRUST),
  "C14": ("E2", "§5.14", "Array/Object.DeleteElems (every delete subset; callback/filter variants) and SetNull on containers, 1-2/1-3 successive edits, on every well-formed tape within the bound: callback order/once/own key, frame, refWF, all traversal APIs agree on the reduced document",
-          "tapes <= 7/9 words for one edit, <= 5/7 for two; unique keys when a filter is used; " + TRUST),
+          "tapes <= 7/8 words for one edit, <= 5/6 for two, <= 5 for three (thorough); unique keys when a filter is used; " + TRUST),
 }
 
 na_default = "check not built yet (framework under construction; see DESIGN.md §9)"
